@@ -217,6 +217,10 @@ func (s *slotState) checkAndDiscard(slot sonic.Slot, ix int, what string) *engin
 
 func seqSpec(maxSlots, maxBytes, maxSeq, maxLen int, ahead ...bool) *engine.BFS[*slotState] {
 	withAhead := len(ahead) == 0 || ahead[0]
+	minLen := 1
+	if len(ahead) > 1 && ahead[1] {
+		minLen = 0 // an empty packet (length 0) is a packet too: it occupies a slot and no bytes
+	}
 	type od struct {
 		kind   byte
 		seq, n int
@@ -224,7 +228,7 @@ func seqSpec(maxSlots, maxBytes, maxSeq, maxLen int, ahead ...bool) *engine.BFS[
 	var ops []string
 	var ods []od
 	for seq := 0; seq <= maxSeq; seq++ {
-		for n := 1; n <= maxLen; n++ {
+		for n := minLen; n <= maxLen; n++ {
 			ops = append(ops, fmt.Sprintf("push(seq=%d,len=%d)", seq, n))
 			ods = append(ods, od{'p', seq, n})
 		}
@@ -240,7 +244,7 @@ func seqSpec(maxSlots, maxBytes, maxSeq, maxLen int, ahead ...bool) *engine.BFS[
 	ops = append(ops, "reset")
 	ods = append(ods, od{'r', 0, 0})
 	return &engine.BFS[*slotState]{
-		Name: fmt.Sprintf("seq,maxSlots=%d,maxBytes=%d,maxSeq=%d,maxLen=%d,ahead=%v", maxSlots, maxBytes, maxSeq, maxLen, withAhead),
+		Name: fmt.Sprintf("seq,maxSlots=%d,maxBytes=%d,maxSeq=%d,maxLen=%d,ahead=%v,minLen=%d", maxSlots, maxBytes, maxSeq, maxLen, withAhead, minLen),
 		New: func() *slotState {
 			return &slotState{b: sonic.NewByteBuffer(), seq: sonic.NewSlotSequencer(maxSlots, maxBytes), maxSlots: maxSlots, maxBytes: maxBytes}
 		},
@@ -329,9 +333,9 @@ func c20Specs(tier string) []*engine.BFS[*slotState] {
 		// (2,16,3,4) does not reach its fixpoint within millions of states; (2,12,3,3) and (3,9,3,4) do, and keep
 		// the shape "byte capacity far above what the slots can hold at once"
 		// (the written-ahead packet multiplies the states: it is explored with two of the four sequencers)
-		return []*engine.BFS[*slotState]{seqSpec(3, 6, 4, 3), seqSpec(4, 8, 5, 3, false), seqSpec(2, 12, 3, 3), seqSpec(3, 9, 3, 4, false), offSpec(6, 3, 4), offSpec(10, 3, 5)}
+		return []*engine.BFS[*slotState]{seqSpec(3, 6, 4, 3), seqSpec(4, 8, 5, 3, false), seqSpec(2, 12, 3, 3), seqSpec(3, 9, 3, 4, false), seqSpec(3, 6, 4, 3, true, true), seqSpec(3, 5, 3, 2, false, true), offSpec(6, 3, 4), offSpec(10, 3, 5)}
 	}
-	return []*engine.BFS[*slotState]{seqSpec(3, 6, 4, 3), seqSpec(2, 10, 3, 4, false), offSpec(6, 3, 3)}
+	return []*engine.BFS[*slotState]{seqSpec(3, 6, 4, 3), seqSpec(2, 10, 3, 4, false), seqSpec(3, 5, 3, 2, false, true), offSpec(6, 3, 3)}
 }
 
 func C20(tier string) *engine.Report {
